@@ -371,14 +371,15 @@ def expect(spec, value, ctx):
         if isinstance(value, bool):
             return ("value", value)
         if isinstance(value, int):
-            return ("value", bool(value))
+            # the 0 / 1 forms; any other integer is not a boolean
+            return ("value", bool(value)) if value in (0, 1) else ("error", ("ParameterNotValid",))
         if isinstance(value, str):
             if value.lower() == "true":
                 return ("value", True)
             if value.lower() == "false":
                 return ("value", False)
             if INT_RE.match(value):
-                return ("value", bool(int(value)))
+                return ("value", bool(int(value))) if int(value) in (0, 1) else ("error", ("ParameterNotValid",))
             if re.match(r"^[A-Za-z]*$", value):
                 return ("error", ("ParameterNotValid",))
             return UNJUDGED
